@@ -273,15 +273,26 @@ def main():
                                'application around the real connect()/'
                                'persist() generators'},
             {'name': 'threadsim', 'path': 'dst/threadsim.py',
+             # C11 / C12 are ThreadSim only; these properties have ThreadSim
+             # families next to their NetSim ones
              'serves_properties': [p for p in built
-                                   if CHECKS[p][0] == 'threadsim'],
+                                   if CHECKS[p][0] == 'threadsim' or p in (
+                                       'C03', 'C04', 'C06', 'C09', 'C13',
+                                       'C14', 'C17', 'C18', 'C19')],
              'kind_free_text': 'real threads released one at a time by a '
                                'seeded scheduler at sys.settrace line events '
-                               'and at intercepted lock / sendall points'},
+                               'and at intercepted lock / sendall points; '
+                               'timed lock waits, stalled writes and a thread '
+                               'taken off the CPU run on the simulated clock'},
         ],
         'checks': checks,
         'not_applicable': na,
-        'notes': 'All checks: exit 0 = held on everything explored, 1 = '
+        'notes': 'The level texts name the core of each check; families added '
+                 'during the sensitivity rounds (two objects at once, '
+                 'reconnects, proxies, stalled writes, ThreadSim families of '
+                 'NetSim properties ...) are listed in each evidence file '
+                 '(coverage.rule, coverage.families) and in DESIGN.md section '
+                 '15.  All checks: exit 0 = held on everything explored, 1 = '
                  'VIOLATION line(s) with replay files under replays/, 2 = '
                  'harness error.  VERIF_SEED selects the seed, VERIF_TIER or '
                  '--tier the depth.  Known findings: known_findings.json.',
